@@ -130,6 +130,22 @@ C19_Step(pre, r, resp, post) ==
   /\ \A k \in (DOMAIN post.classes) \ (DOMAIN pre.classes) :
         r.op # "rc_put" \/ r.v >= 7 => \A j \in DOMAIN pre.classes : pre.classes[j] # post.classes[k]
 
+\* Generations are opaque: comparisons of whole states that must not depend on
+\* how far a generation moved.
+\* generations erased
+NoGens(s) == [s EXCEPT !.rp = [p \in DOMAIN @ |-> [@[p] EXCEPT !.gen = 0]],
+                       !.cons = [c \in DOMAIN @ |-> [@[c] EXCEPT !.gen = 0]]]
+
+\* `got` is `want` except that generations the request moves may have moved further
+SameUpToRetriedGens(db0, want, got) ==
+  /\ NoGens(got) = NoGens(want)
+  /\ \A p \in Providers(want) :
+        IF p \in Providers(db0) /\ want.rp[p].gen = db0.rp[p].gen
+        THEN got.rp[p].gen = want.rp[p].gen ELSE got.rp[p].gen >= want.rp[p].gen
+  /\ \A c \in DOMAIN want.cons :
+        IF c \in DOMAIN db0.cons /\ want.cons[c].gen = db0.cons[c].gen
+        THEN got.cons[c].gen = want.cons[c].gen ELSE got.cons[c].gen >= want.cons[c].gen
+
 \* names of the monitors that fail on a step (reported by the trace checker).
 \* A state invariant is blamed on the step that breaks it (or on the first
 \* step of a history), not on every later step of the same history.
